@@ -2,7 +2,8 @@
 From Coq Require Import List ZArith Bool.
 Import ListNotations.
 From PV Require Import Fort.Syntax Fort.Sem Fort.Facts C01.Model C01.SelectProofs C01.WhereLocal
-  C01.WhereExec C01.Refuted C01.Corr.   (* Corr: the executable correspondence check, no theorem *)
+  C01.WhereExec C01.Refuted C01.Corr    (* Corr: the executable correspondence check, no theorem *)
+  C01.Compose C01.Compose2 C01.Compose3.
 Open Scope Z_scope.
 
 (* SELECT CASE -> IF chain: for ALL selector expressions, clause lists (value lists, ranges, open
@@ -113,3 +114,39 @@ Theorem C01_lower_where_refuted_reduction :
   lower_where Fixed (fun _ => None) wC = NotExpressible.
 Proof. exact refuted_reduction. Qed.
 Print Assumptions C01_lower_where_refuted_reduction.
+
+(* programs without SELECT CASE / WHERE (assignments, IF, DO with or without step, EXIT / CYCLE / RETURN,
+   nested) are lowered to themselves -- a missing DO step becomes the literal 1 -- and the source
+   semantics of such a program IS the MiniFortran semantics of the result (same outcome for every fuel
+   and store: store, trace, control state, faults) *)
+Theorem C01_lower_do_if_identity :
+  forall md dc p, forallb plain p = true ->
+    lower md dc p = Some (map embed p) /\ forall f s, sexec f p s = exec f (map embed p) s.
+Proof. exact lower_do_if_identity. Qed.
+Print Assumptions C01_lower_do_if_identity.
+
+(* COMPOSITIONAL: the whole reader.  For every nested source program p (assignments, IF, DO incl.
+   zero-trip / negative / missing step, EXIT / CYCLE / RETURN, SELECT CASE anywhere, 1-D WHERE) that is
+   well formed w.r.t. the set X of loop variables the reader creates ([wf X]: no statement mentions a
+   name of X; every WHERE satisfies [safe_where], its loop variable is in X) and every store s on which
+   the reader's knowledge of declared bounds is right ([dcb_ok], incl. lower bound 1 unless the repaired
+   trip count is used): if p, run by the Fortran rules ([sexec]: SELECT CASE by [select_sem], WHERE by
+   [where_sem]), ends in store s' with control state c, then the lowered program [lower md dc p], run by
+   the MiniFortran semantics from the same store, ends with the same control state in a store that equals
+   s' on every location whose name is not in X.  (The source language has no output statements; traces
+   differ by the reads of selectors and by the order of the element stores of a WHERE.)
+   PARTIAL in the same sense as C01_lower_where_sound_partial (side condition on the WHERE constructs). *)
+Theorem C01_lower_program_sound_partial :
+  forall X md dc p q f s s' tr c,
+    lower md dc p = Some q -> forallb (wf X) p = true -> dcb_ok md dc s ->
+    sexec f p s = Ok s' tr c ->
+    exists f' t' tr', exec f' q s = Ok t' tr' c /\ bnd t' = bnd s' /\
+                      forall l, ~ In (fst l) X -> val t' l = val s' l.
+Proof. exact lower_program_sound_partial_. Qed.
+Print Assumptions C01_lower_program_sound_partial.
+
+(* a SELECT CASE inside a DO inside an IF, then a WHERE / ELSEWHERE: hypotheses hold, both runs computed *)
+Example C01_program_nonvacuous :
+  forallb (wf [pe_x]) pe_prog = true /\ dcb_ok Today (fun _ => None) pe_store /\ pe_check = true.
+Proof. exact program_example. Qed.
+Print Assumptions C01_program_nonvacuous.
